@@ -1150,6 +1150,11 @@ def gen(rng, tier):
     yield from c18_args.gen_cases(rng, tier)
 
 
+def _cli_seed(rng):
+    """--seed values: 0 (the parsers' default, and falsy) as often as anything else"""
+    return rng.choice([0, 0, 1, rng.randrange(2 ** 31), rng.randrange(2 ** 31)])
+
+
 def _gen(rng, tier):
     reps = 3 if tier == "quick" else 24
     count = {}
@@ -1229,19 +1234,19 @@ def _gen(rng, tier):
                   "reveal_single_treatment_experiments=False", "--plate-smoother", "OptimalSizeSmoother"],
                  ["--plate-generator", "PairwisePlateGenerator", "--plate-generator-param", "subset_size=1", "--plate-generator-param", "anchor_size=0"]]
         for extra in preps:
-            yield from emit(dict(kind="cli_prepare", seed=rng.randrange(2 ** 31), screen=_screen_spec(rng, observed="all", big=True),
+            yield from emit(dict(kind="cli_prepare", seed=_cli_seed(rng), screen=_screen_spec(rng, observed="all", big=True),
                                  fraction=rng.choice([0.125, 0.25, 0.5]), extra=extra))
         for scorer in ["RandomScorer", "RandomScorer", "GaussianDBALScorer", "SizeScorer"]:
             nch = rng.randint(1, 2)
-            yield from emit(dict(kind="cli_calculate_scores", scorer=scorer, seed=rng.randrange(2 ** 31), data_seed=rng.randrange(10 ** 6),
+            yield from emit(dict(kind="cli_calculate_scores", scorer=scorer, seed=_cli_seed(rng), data_seed=rng.randrange(10 ** 6),
                                  screen=_screen_spec(rng, observed="some"), n_thetas=rng.randint(4, 6), max_triples=rng.randint(1, 3), max_chunk=rng.randint(1, 3),
                                  n_chunks=nch, chunk_index=rng.randrange(nch), batch=rng.choice([[], [], [0]])))
         for model in ["SparseDrugCombo", "SparseDrugComboInteraction"]:
             nch = rng.randint(1, 2)
-            yield from emit(dict(kind="cli_train_model", model=model, seed=rng.randrange(2 ** 31), screen=_screen_spec(rng, observed=rng.choice(["all", "some"])),
+            yield from emit(dict(kind="cli_train_model", model=model, seed=_cli_seed(rng), screen=_screen_spec(rng, observed=rng.choice(["all", "some"])),
                                  dim=rng.randint(1, 2), n_thetas=rng.randint(1, 2), n_chains=nch, chain_index=rng.randrange(nch),
                                  n_burnin=rng.randint(0, 2), thin=rng.randint(1, 2)))
         for i in range(3):
-            yield from emit(dict(kind="cli_select_next_plate", seed=rng.randrange(2 ** 31), data_seed=rng.randrange(10 ** 6),
+            yield from emit(dict(kind="cli_select_next_plate", seed=_cli_seed(rng), data_seed=rng.randrange(10 ** 6),
                                  screen=_screen_spec(rng, plates="per-sample", observed="some"), k=rng.choice([0, 1, 2]),
                                  batch=sorted(rng.sample(range(5), rng.randint(0, 2)))))
